@@ -289,6 +289,21 @@ def _class_body(ctx, case):
     exp = _fold(full, nfft, real)
     ctx.close(np.real(psd), exp, "class PSD vs mean over tapers of weight*|eigenspectrum|^2 (method=%s, %s)"
               % (meth, "doubled/folded" if real else "two-sided"), rtol=1e-9, atol=1e-9 * float(np.max(exp)))
+    if meth != "adapt":
+        # the same object re-configured with another time-bandwidth product / number of tapers and evaluated again
+        # (explicit call: NW and k are plain attributes) must give the estimate of its *current* NW and k
+        NW2 = 2.0 if float(NW) != 2.0 else 3.0
+        k2 = 3 if k != 3 else 2
+        if 2 * NW2 < N and k2 <= 2 * NW2:
+            p.NW = NW2
+            p.k = k2
+            p()
+            t2, l2 = spectrum.dpss(N, NW2, k2)
+            S22 = np.abs(_eigenspectra(np.asarray(t2), x, nfft)) ** 2
+            full2 = np.mean(S22, axis=0) if meth == "unity" else np.mean(S22 * (np.asarray(l2) / (np.arange(k2) + 1.0))[:, None], axis=0)
+            exp2 = _fold(full2, nfft, real)
+            ctx.close(np.real(np.asarray(p.psd)), exp2, "class PSD after NW=%r, k=%r were assigned to the same object and it was evaluated again "
+                      "(method=%s)" % (NW2, k2, meth), rtol=1e-9, atol=1e-9 * float(np.max(exp2)), sig={"clause": "object-reconfigured"})
 
 
 @sub("C19.class", strategy=mt_case(methods=("unity", "eigen"), class_level=True), quick=500, thorough=6000,
@@ -335,3 +350,14 @@ def c19_pre(ctx, case):
     s2 = np.asarray(p2.psd).astype(complex)
     ctx.close(s2, s1, "MultiTapering PSD with precomputed tapers vs computed (method=%s)" % meth,
               rtol=1e-12, atol=1e-12 * float(np.max(np.abs(s1))))
+
+
+# ---- number-type invariance (integer samples of a narrow dtype) -------------------
+from vlib import dtypecheck as _dt   # noqa: E402
+
+
+@sub("C19.dtype", strategy=_dt.int_case(sorted(_dt.TABLES["C19"])), quick=300, thorough=6000,
+     doc="the same integer-valued samples stored as int16/int8/uint8/uint16/int32/int64 or as float64 give the same result "
+         "(products of two narrow integers do not fit their dtype): " + ", ".join(sorted(_dt.TABLES["C19"])))
+def c19_dtype(ctx, case):
+    _dt.body(ctx, case, _dt.TABLES["C19"])
